@@ -193,19 +193,41 @@ def main(argv):
     built = {}
 
     def build():
-        objs = chk.repolib(["babylon/reusable/page_allocator.cpp", "babylon/concurrent/counter.cpp"],
-                           flags=["-I" + os.path.join(VERIF, "harness"), "-include", "shim/prelude.h"], tag="c17shim")
-        if objs is None:
-            return
-        # driver and scheduler objects are cached too (the driver is rebuilt when any header it includes changes)
-        d = os.path.join(vlib.BUILD, "repolib-c17shim")
-        mine = []
-        procs = []
-        with vlib.Lock("repolib-c17drv"):
-            for src in (os.path.join(VERIF, "harness/conc/c17_alloc.cpp"), os.path.join(VERIF, "harness/shim/dsched.cpp")):
-                o = os.path.join(d, "drv_" + os.path.basename(src).replace(".cpp", ".o"))
-                mine.append(o)
-                if chk._stale(o, src):
+        # the four translation units (driver, scheduler, page_allocator.cpp, counter.cpp - all through the macro shim)
+        # are cached as objects; an object is rebuilt when any file it was compiled from (.d) is newer, where paths
+        # recorded under another REPO / VERIF root (bin/muttest copies build/) are mapped onto the current roots
+        d = os.path.join(vlib.BUILD, "c17obj")
+        os.makedirs(d, exist_ok=True)
+        srcs = [os.path.join(VERIF, "harness/conc/c17_alloc.cpp"), os.path.join(VERIF, "harness/shim/dsched.cpp"),
+                os.path.join(REPO, "src/babylon/reusable/page_allocator.cpp"),
+                os.path.join(REPO, "src/babylon/concurrent/counter.cpp")]
+
+        def stale(o, src):
+            w = o + ".where"
+            if not (os.path.exists(o) and os.path.exists(w) and os.path.exists(o[:-2] + ".d")):
+                return True
+            try:
+                rec = json.load(open(w))
+                mt = os.path.getmtime(o)
+                txt = open(o[:-2] + ".d").read().replace("\\\n", " ")
+                deps = [src] + (txt.split(":", 1)[1].split() if ":" in txt else [])
+                for dp in deps:
+                    for old, new in ((rec["repo"], REPO), (rec["verif"], VERIF)):
+                        if dp.startswith(old + "/"):
+                            dp = new + dp[len(old):]
+                            break
+                    if os.path.getmtime(dp) > mt:
+                        return True
+            except (OSError, ValueError, KeyError):
+                return True
+            return False
+
+        objs, procs = [], []
+        with vlib.Lock("c17obj"):
+            for src in srcs:
+                o = os.path.join(d, os.path.basename(src).replace(".cpp", ".o"))
+                objs.append(o)
+                if stale(o, src):
                     cmd = [vlib.CXX] + vlib.CXXFLAGS + ["-I" + os.path.join(VERIF, "harness"), "-fno-access-control",
                                                         "-include", "shim/prelude.h", "-MMD", "-c", src, "-o", o]
                     procs.append((src, o, subprocess.Popen(cmd, stdout=subprocess.PIPE, stderr=subprocess.PIPE, text=True)))
@@ -216,7 +238,8 @@ def main(argv):
                         os.remove(o)
                     chk.broke("harness", "compile " + os.path.basename(src), err[-3000:])
                     return
-        built["impl"] = chk.build_cpp("c17_alloc", [], objs=mine + objs, ldflags=["-ldl"])
+                json.dump({"repo": REPO, "verif": VERIF}, open(o + ".where", "w"))
+        built["impl"] = chk.build_cpp("c17_alloc", [], objs=objs, ldflags=["-ldl"])
 
     bt = threading.Thread(target=build)
     bt.start()
